@@ -236,9 +236,22 @@ def fam_manager(rng, pid, count, fills=(False,), has=(False,), lifes=(None,), he
         if rng.random() < hexshare:
             cfg = rand_cfg(rng, kind, tf=tf if rng.random() < 0.6 else None)
             hexcfg = {"timeframe": None if cfg.timeframe else tf, "fill": fill, "lifespan": lifespan, "ctype": ctype}
-            sc = hex_scenario(rng, f"{pid}/hexmgr{tag}/{tf}/{t}", "manager", [cfg], n, rng.choice(["mixed", "walk"] if ha else ["mixed", "walk", "decimal"]),
+            sc = hex_scenario(rng, f"{pid}/hexmgr{tag}/{tf}/{t}", "manager", [cfg], n,
+                              rng.choice(["mixed", "walk"] if ha else ["mixed", "walk", "decimal", "flat_then_walk",
+                                                                       "zerovol_then_walk"]),
                               twins=twins, hexcfg=hexcfg, tf=tf, regular=regular, pre_choices=(0, 1, 2, n),
                               extra=(rng.randint(2, 6) if "aligned" in twins else 0))
+            appends = [i for i, x in enumerate(sc["prog"]) if x[0] == "append"]
+            if cfg.timeframe and not hexcfg["timeframe"] and lifespan is None and not ha and appends \
+                    and "aligned" not in twins and rng.random() < 0.4:
+                # the member (and with it its timeframe) joins a Hexital that already holds candles:
+                # its series starts from the whole stream so far (the default manager keeps it all)
+                k_ = rng.choice(appends) + 1
+                sc["late"], sc["inds"], sc["member_forms"] = [cfg], [], []
+                sc["prog"].insert(k_, ("add", 0, rng.choice(["obj", "dict"])))
+                sc["twins"] = []
+                sc["names_fixed"] = True
+                sc["id"] = sc["id"].replace("/hexmgr", "/hexlate")
         else:
             cfg = rand_cfg(rng, kind, tf=tf, fill=fill)
             cfg.lifespan, cfg.ctype = lifespan, ctype
@@ -341,6 +354,9 @@ def fam_transitions(rng, pid, count):
         start = rng.choice([0, 1800, 3600, 4500, 5400, 6600])
         kind = rng.choice(["HLA", "SMA", "EMA", "OBV"])
         cfg = rand_cfg(rng, kind, tf=tf, fill=rng.random() < 0.3)
+        if rng.random() < 0.35:
+            # a lifespan whose window reaches across the hour the zone skips or repeats
+            cfg.lifespan = timedelta(seconds=spacing * rng.choice([4, 6, 9]))
         st = make_stream(rng, n, rng.choice(["mixed", "walk"]), tf=tf, regular=spacing, t0=start,
                          start_on=rng.random() < 0.5)
         pre, chunks = compositions(rng, n, (0, 1, 2, n), 4)
@@ -410,6 +426,9 @@ def decorate(rng, scs):
             # within one Hexital (the registry must keep the order the caller gave)
             if rng.random() < 0.35:
                 sc["member_forms"] = [rng.choice(["obj", "obj", "dict", "settings", "used"]) for _ in sc["inds"]]
+        if sc["obj"] == "hex" and (sc.get("hex", {}).get("timeframe") or sc.get("hex", {}).get("ctype")) \
+                and rng.random() < 0.2:
+            sc["hex"] = dict(sc["hex"], as_class_attrs=True)
         mem = sc["inds"] + sc.get("late", [])
         tfs = [c.timeframe for c in mem if c.timeframe]
         for j, c in enumerate(mem):
@@ -506,7 +525,8 @@ def _scenarios(pid, tier, rng):
                               kinds=("SMA", "EMA", "RSI", "STOCH", "ATR", "MACD", "BBANDS", "OBV"), tag="b")
                 + fam_survivors(rng, pid, k(90, 600)))
     if pid == "C18":
-        return (fam_manager(rng, pid, k(400, 1600), tzs=TZS[1:], fills=(False, True), hexshare=0.15)
+        return (fam_manager(rng, pid, k(400, 1600), tzs=TZS[1:], fills=(False, True), hexshare=0.15,
+                            lifes=(None, None, None, 6, 12, 30))
                 + fam_transitions(rng, pid, k(160, 600)) + fam_aware(rng, pid, k(20, 150)))
     if pid == "C16":
         return (fam_movement(rng, pid, k(160, 800)) + fam_patterns(rng, pid, k(80, 400))
@@ -745,6 +765,16 @@ def fam_interference(rng, pid, count):
                 cfgs.reverse()
             if rng.random() < 0.3:
                 cfgs += _uniq(cfgs + [rand_cfg(rng, rng.choice(SIMPLE))])[len(cfgs):]
+        if t % 12 == 5:
+            # two wrappers of the same family written the economical way: the arguments they share in one
+            # dict that both get as `args`, what differs as keywords
+            fa, fb = rng.sample(["highest", "lowest", "rising", "falling", "mean_rising", "value_range"], 2)
+            cfgs = [IndCfg("Amorph", fn=fa, inp="close", p=rng.choice([6, 9]),
+                           extra={"fullname_override": "WIDE", "_args_split": True}),
+                    IndCfg("Amorph", fn=fb, inp="close", p=rng.choice([2, 3, 4]),
+                           extra={"fullname_override": "NARROW", "_args_split": True})]
+            if rng.random() < 0.5:
+                cfgs.reverse()
         n = rng.randint(24, 30)
         tf = None
         if t % 3 == 1:
@@ -806,7 +836,8 @@ def fam_interference(rng, pid, count):
                     "hex": hexcfg, "stream": stream_,
                     "prog": prog,
                     "twins": ["alone", "reorder"] if not removed else ["alone"],
-                    "member_forms": (mixed_forms if hexcfg else ["obj"] * len(cfgs)),
+                    "member_forms": (["dict"] * len(cfgs) if t % 12 == 5 else mixed_forms if hexcfg
+                                     else ["obj"] * len(cfgs)),
                     "clause_props": {"exc": ["C13"], "alone": ["C13"], "reorder": ["C13"], "stage": ["C13"],
                                      "def": ["C13"], "interfere": ["C13"], "value": ["C13"], "gap": ["C13"]}})
     return out
@@ -1483,9 +1514,18 @@ def fam_patterns(rng, pid, count):
             else:
                 maker = uneven_case if t % 2 == 0 else pattern_case
                 prices, at = maker(rng, name, witness=rng.random() < 0.5)
+            if rng.random() < 0.5:
+                # very wide (or very quiet) candles right after the candidate: the averages a threshold is
+                # taken from jump between the candidate and the later candles whose lookback still covers it
+                lvl = prices[-1][3]
+                wide = rng.random() < 0.7
+                for _ in range(rng.randint(1, 2)):
+                    r_ = 400.0 if wide else 0.2
+                    prices = prices + [(lvl, lvl + r_ / 2, lvl - r_ / 2, lvl + (r_ / 4 if wide else 0.05), 5)]
             stream = [(i * 60,) + p for i, p in enumerate(prices)]
             n = len(stream)
             focus = list(range(max(8, at - 1), n))
+            looks = [None, 1, 2, 2, 3, 3, 4]
         readings = [{} for _ in range(n)]
         mul, add = rng.choice(SCALINGS)
         stream, readings = _transform(stream, readings, mul, add)
@@ -1505,7 +1545,7 @@ def amorph_cfg(rng, src_name=None, prefer=None):
         return IndCfg("Amorph", fn=fn, p=rng.choice([0, 0, 2, 3, 12, 15]))
     if fn in ("positive", "negative"):
         return IndCfg("Amorph", fn=fn)
-    a = src_name or rng.choice(["close", "high", "low"])
+    a = src_name or rng.choice(["close", "high", "low", "volume"])
     b = rng.choice(["open", "close", "low"])
     if fn in ("above", "below"):
         return IndCfg("Amorph", fn=fn, inp=a, inp2=b)
@@ -1523,7 +1563,9 @@ def fam_amorph(rng, pid, count, twins=("batch",)):
         prefer = ("cross", "crossover", "crossunder") if t % 3 == 2 else (PATS if t % 4 == 0 else None)
         if t % 2 == 0:
             tail = t % 8 == 0        # every eighth: a wrapped pattern whose only hit is the last candle
-            cfg = amorph_cfg(rng, prefer=((PATS[(t // 8) % 4],) if tail else prefer))
+            quiet = t % 10 == 6      # every tenth: a function of the volume on a timeframe fed repeated candles
+            cfg = amorph_cfg(rng, src_name=("volume" if quiet else None),
+                             prefer=((PATS[(t // 8) % 4],) if tail else (MOVE1 if quiet else prefer)))
             n = rng.randint(12, 18)
             if t % 6 == 4:
                 # the wrapper has already produced readings on a list of its own, then joins a Hexital
@@ -1531,8 +1573,15 @@ def fam_amorph(rng, pid, count, twins=("batch",)):
                                         rng.choice(["walk", "mixed"]), twins, forms=["used"],
                                         extra=rng.randint(1, 4) if "longer" in twins else 0))
                 continue
-            sc = ind_scenario(rng, f"{pid}/amorph/{cfg.fn}/{t}", "amorph", cfg, n, rng.choice(["walk", "mixed"]),
-                              twins, extra=rng.randint(1, 4) if "longer" in twins else 0)
+            # (a third of the wrappers on a collapsing timeframe, also fed quiet sub-candles that stay inside
+            #  the forming bucket and close where it stands: only its volume moves)
+            tf_ = pick_tf(rng) if (quiet or rng.random() < 0.3) and not tail else None
+            cfg.timeframe = tf_
+            sc = ind_scenario(rng, f"{pid}/amorph/{cfg.fn}/{t}", "amorph", cfg, n + (8 if tf_ else 0),
+                              "repeat" if quiet else
+                              rng.choice(["walk", "mixed", "repeat", "inside_then_walk"] if tf_ else ["walk", "mixed"]),
+                              twins, extra=rng.randint(1, 4) if "longer" in twins else 0, tf=tf_,
+                              regular=(tf_regular(rng, tf_) if tf_ and rng.random() < 0.7 else None))
             if cfg.fn in PATS and tail:
                 # a lookback longer than the history in front of the early candles, on a stream whose LAST
                 # candle is a hit of the same pattern (for the doji family also with a body of exactly zero):
